@@ -40,6 +40,7 @@ from fortls.helper_functions import (
     only_dirs,
     resolve_globs,
     set_keyword_ordering,
+    strip_strings,
 )
 from fortls.json_templates import change_json, symbol_json, uri_json
 from fortls.jsonrpc import JSONRPC2Connection, path_from_uri, path_to_uri
@@ -875,6 +876,8 @@ class LangServer:
         def get_sub_name(line: str):
             # The text of this parenthesis level only: commas inside nested
             # parentheses do not separate arguments of this call
+            # Neither do commas inside character literals (blanked, same length)
+            line = strip_strings(line, maintain_len=True)
             arg_string, sections = get_paren_level(line)
             if sections[0].start <= 1:
                 return None, None, None
